@@ -5,6 +5,7 @@ package server
 import (
 	"fmt"
 	"net"
+	"unsafe"
 
 	"github.com/XiaoMi/Gaea/mysql"
 	"github.com/gin-gonic/gin"
@@ -45,6 +46,15 @@ func VerifSessionState(se *SessionExecutor) (charset string, collation mysql.Col
 		vars[v.Name()] = fmt.Sprint(v.Get())
 	}
 	return se.charset, se.collation, vars
+}
+
+// VerifSessionVarPtrs returns the identity of the session's Variable objects.
+func VerifSessionVarPtrs(se *SessionExecutor) map[string]uintptr {
+	out := map[string]uintptr{}
+	for _, v := range se.sessionVariables.GetAll() {
+		out[v.Name()] = uintptr(unsafe.Pointer(v))
+	}
+	return out
 }
 
 // VerifCloseSession releases what the session holds (as Session.Close does, minus the socket).
